@@ -38,9 +38,21 @@ var vsSchedCache = map[applySchedulerConfig]*applyScheduler{}
 // ---- canonical forms -------------------------------------------------------------
 
 // vsCanon is the canonical (normalised) JSON of a state, checksum included.
+//
+// The deep copy is made by a JSON round trip of the exported struct, not by
+// ClusterState.Clone: Clone is code under test (Encode, Checksum and Validate
+// all start with it), and a lossy Clone must not be able to hide from the
+// comparison by damaging both sides alike.
 func vsCanon(st state.ClusterState) string {
-	c := st.Clone()
-	c.Normalize()
+	raw, err := json.Marshal(st)
+	if err != nil {
+		return "marshal-error:" + err.Error()
+	}
+	var c state.ClusterState
+	if err := json.Unmarshal(raw, &c); err != nil {
+		return "unmarshal-error:" + err.Error()
+	}
+	c.Normalize() // in place, sorts and fills defaults; does not clone
 	b, err := json.Marshal(c)
 	if err != nil {
 		return "marshal-error:" + err.Error()
@@ -51,7 +63,7 @@ func vsCanon(st state.ClusterState) string {
 // vsLogical drops the fields that every handled entry may touch without a
 // logical change (applied index, checksum) and optionally the health reports.
 func vsLogical(st state.ClusterState, dropHealth bool) string {
-	c := st.Clone()
+	c := st // shallow: only scalars and one slice header are replaced; vsCanon copies deeply
 	c.AppliedRaftIndex = 0
 	c.Checksum = ""
 	if dropHealth {
@@ -210,6 +222,8 @@ func runC18(t *testing.T, r *simkit.Run) {
 	}
 	defer os.RemoveAll(w.base)
 	defer func() { statefile.VerifCrashPointHook = nil }()
+	fields := vsFieldSet{}
+	defer fields.flush(r)
 
 	// ---- (a): one entry at a time, generating the log as we go -------------------
 	mem := &vsMemStore{}
@@ -296,6 +310,10 @@ func runC18(t *testing.T, r *simkit.Run) {
 		}
 		r.Steps++
 		snap := smA.Snapshot(ctx)
+		if rec.res.Changed || rec.res.Updated {
+			fields.add(snap)
+			fields.noteRestoreShape(snap)
+		}
 		w.recs = append(w.recs, rec)
 		w.canonAt = append(w.canonAt, vsCanon(snap))
 		w.stateAt = append(w.stateAt, snap)
@@ -380,7 +398,7 @@ func (w *vsWorld) checkStep(idx uint64, cmd command.Command, meta vsMeta, pre, p
 				fail("changed_without_revision", "changed but revision %d -> %d", pre.Revision, post.Revision)
 			} else {
 				// revision moved; did anything else? (allowed, but worth counting)
-				c1, c2 := pre.Clone(), post.Clone()
+				c1, c2 := pre, post // shallow copies; only scalars are changed below
 				c1.Revision, c2.Revision = 0, 0
 				c1.UpdatedAt, c2.UpdatedAt = post.UpdatedAt, post.UpdatedAt
 				if vsLogical(c1, false) == vsLogical(c2, false) {
